@@ -123,7 +123,7 @@ theorem Cmp.lookupKey_pn (kk : Key) : ∀ bs : List (GoVal × GoVal),
 mutual
 theorem Cmp.equalAux_pn_right : ∀ (x : GoVal) (fl : Bool) (b : GoVal),
     equalAux fl x (prep (b.norm false)) = equalAux fl x (prep b)
-  | .drop v, true, b => by simp only [equalAux]; exact equalAux_pn_right v false b
+  | .drop v, true, b => by simp only [equalAux]; exact equalAux_pn_right v true b
   | .drop v, false, b => by
     simp only [equalAux]
     exact equalBody_toLiq_right _ b _ _ (fun _ => rfl) (fun _ _ => rfl)
@@ -132,7 +132,7 @@ theorem Cmp.equalAux_pn_right : ∀ (x : GoVal) (fl : Bool) (b : GoVal),
     | false => simp only [equalAux]; exact equalBody_toLiq_right _ b _ _ (fun _ => rfl) (fun _ _ => rfl)
     | true =>
       cases v with
-      | drop w => simp only [equalAux]; exact equalAux_pn_right w false b
+      | drop w => simp only [equalAux]; exact equalAux_pn_right w true b
       | _ => simp only [equalAux]; exact equalBody_toLiq_right _ b _ _ (fun _ => rfl) (fun _ _ => rfl)
   | .slice t xs, fl, b => by
     simp only [equalAux]
@@ -184,10 +184,6 @@ end
 
 /-! ## What an operator sees of an operand: `strip = unwrap`, and `prep` commutes with it -/
 
-theorem Cmp.toLiq_eq_toLiquid (v : GoVal) : toLiq v = v.toLiquid := by
-  cases v with
-  | ptr w => cases w <;> rfl
-  | _ => rfl
 
 theorem Cmp.iface0_resolveVal (v : GoVal) : iface0 (resolveVal v) = v.unwrap := by
   induction v using GoVal.unwrap.induct with
